@@ -49,16 +49,20 @@ def offs_task(task):
     bindir, zone, ts = task
     sh = Shard()
     L = leap.Leaps()
-    lines = [civ(t) for t in ts]
+    ts = [pt(t) for t in ts]
+    lines = [civ(*t) for t in ts]
     argv = [str(bindir / "dconv"), "--zone", zone, "-f", "%FT%T"]
     r = run(argv, stdin=("\n".join(lines) + "\n").encode(), cpu=30, wall=120)
     sh.procs += 1
     sh.check_san(r, "san", "leap:offs:%s" % zone)
     outs, _ = align_lines(lines, r)
-    for t, got in zip(ts, outs):
+    for (t, tlab), got in zip(ts, outs):
+        # an inserted second is one second after the 23:59:59 before it, the offset steps only at the midnight after it
         off = L.tai_utc(t) if zone == "TAI" else L.gps_utc(t)
-        want = civ(t + off)
+        want = civ(t + tlab + off) if off or not tlab else civ(t, True)         # offset 0 (GPS before 1980): the label stays
         i, s = side(L, t)
+        if tlab:
+            s = "inserted"
         era = "pre-1972" if t < L.ts[0] else "post-2038" if t >= 2 ** 31 else "after-last" if i == len(L.ts) else "table"
         c = (zone, era, s, "interval%d" % i if era == "table" else era)
         if got == want:
@@ -73,8 +77,8 @@ def offs_task(task):
             except Exception:
                 pass
             sh.bad("leap-offset", "leap:offs:%s:%s:%s:delta=%s" % (zone, era, s, delta if isinstance(delta, str) or abs(delta) < 3 else "big"),
-                   "dconv --zone %s %s -> %r, table says %s-UTC = %d s there: %s" % (zone, civ(t), got, zone, off, want),
-                   dict(argv=argv, input=civ(t), expected=want, observed=got), cls=c)
+                   "dconv --zone %s %s -> %r, table says %s-UTC = %d s there: %s" % (zone, civ(t, tlab), got, zone, off, want),
+                   dict(argv=argv, input=civ(t, tlab), expected=want, observed=got), cls=c)
     if outs:
         sh.sample(dict(cmd=core.shq(argv), input=lines[0], output=outs[0]), cap=1)
     return sh
@@ -290,7 +294,8 @@ def main(tier, seed):
     far = [2 ** 31 - 2, 2 ** 31 - 1, 2 ** 31, 2 ** 31 + 1, 2 ** 32 - 1, 2 ** 32, 2 ** 32 + 1, EP_MAX - 100]
     offs_ts = sorted(set(bnd + mids + years + far + [0, 1, 86400, L.ts[0] - 86400 * 200]))
     offs_ts = [t for t in offs_ts if 0 <= t <= EP_MAX]
-    tasks = [("offs", (bindir, "TAI", offs_ts)), ("offs", (bindir, "GPS", offs_ts + [315964799, 315964800, 315964801]))]
+    insl = [(t - 1, True) for t in L.steps]
+    tasks = [("offs", (bindir, "TAI", offs_ts + insl)), ("offs", (bindir, "GPS", offs_ts + [315964799, 315964800, 315964801] + insl))]
     tasks += [("inv", (bindir, "TAI", offs_ts)), ("inv", (bindir, "GPS", [t for t in offs_ts if t >= 315964800]))]
     rnd = [rng.randrange(L.ts[0], L.ts[-1] + 86400 * 3000) for _ in range(200 if quick else 5000)]
     for ch in range(0, len(rnd), 100):
@@ -332,7 +337,7 @@ def main(tier, seed):
                                             [rng.randrange(L.ts[0] + 100, L.ts[-1] + 10 ** 8) for _ in range(10)])))
     for sh in core.pmap(_dispatch, tasks):
         ctx.merge(sh)
-    ctx.rule = ("events: (0) dconv --from-zone TAI|GPS for stamps -1..+38 s around every table entry (the inverse mapping); (1) dconv --zone TAI|GPS at every table entry -2..+2 s, interval midpoints, year starts to 4093, "
+    ctx.rule = ("events: (0) dconv --from-zone TAI|GPS for stamps -1..+38 s around every table entry (the inverse mapping); (1) dconv --zone TAI|GPS at every table entry -2..+2 s and at every inserted second, interval midpoints, year starts to 4093, "
                 "2^31 and 2^32 +-1, random: the applied offset must be the table value (TAI-UTC of the last entry <= t; "
                 "GPS = TAI-19 from 1980-01-06); (2) ddiff A B -f '%%rS|%%S' on ordered pairs of boundary instants: real "
                 "seconds = UTC difference + leap seconds in (A,B], antisymmetric, also for operands more than 2^31 and 2^32 s apart, with %%rS|%%S|%%rS in one format, and with either operand an inserted second 23:59:60; (3) dadd DT +-Nrs for instants -5..+5 s "
